@@ -132,6 +132,57 @@ def v_rename_all_locals(root: Path) -> None:
         p.write_text(ast.unparse(tree) + "\n")
 
 
+def v_rename_template_locals(root: Path) -> None:
+    """S7: every Jinja variable that a template itself binds with `{% set x %}` or as a `{% for x in %}` target (and that is not a
+    macro parameter, an imported name or a namespace attribute in the same file) gets the suffix _t, consistently within the file.
+    The source is reproduced from jinja2's own token stream, so only `name` tokens change."""
+    import jinja2
+    from jinja2 import nodes
+
+    # default whitespace options: the token stream then reproduces the file exactly (lstrip_blocks would drop indentation)
+    env = jinja2.Environment(extensions=["jinja2.ext.loopcontrols"], keep_trailing_newline=True)
+    tdir = root / PKG / "templates"
+    for p in sorted(tdir.rglob("*.jinja")):
+        src = p.read_text()
+        tree = env.parse(src)
+        bound: set[str] = set()
+        for n in tree.find_all((nodes.Assign, nodes.AssignBlock)):
+            if isinstance(n.target, nodes.Name):
+                bound.add(n.target.name)
+        for n in tree.find_all(nodes.For):
+            for t in ([n.target] if isinstance(n.target, nodes.Name) else list(n.target.find_all(nodes.Name))):
+                bound.add(t.name)
+        keep: set[str] = {"loop", "ns", "self", "caller", "varargs", "kwargs"}
+        for m in tree.find_all(nodes.Macro):
+            keep |= {a.name for a in m.args}
+            keep.add(m.name)
+        for n in tree.find_all(nodes.FromImport):
+            keep |= {(x[1] if isinstance(x, tuple) else x) for x in n.names}
+        for n in tree.find_all(nodes.Import):
+            keep.add(n.target)
+        # names a called macro of ANOTHER file may read from the caller are not an issue: macros do not see the caller's locals
+        ren = bound - keep
+        if not ren:
+            continue
+        toks = list(env.lex(src))
+        out = []
+        sig = [i for i, t in enumerate(toks) if t[1] not in ("whitespace",)]
+        pos = {i: k for k, i in enumerate(sig)}
+        for i, (ln, typ, val) in enumerate(toks):
+            if typ == "name" and val in ren:
+                k = pos[i]
+                prev = toks[sig[k - 1]] if k > 0 else (0, "", "")
+                nxt = toks[sig[k + 1]] if k + 1 < len(sig) else (0, "", "")
+                is_attr = prev[1] == "operator" and prev[2] == "."
+                is_kwarg = nxt[1] == "operator" and nxt[2] == "=" and not (prev[1] == "name" and prev[2] == "set")
+                if not is_attr and not is_kwarg:
+                    val = val + "_t"
+            out.append(val)
+        new_src = "".join(out)
+        env.parse(new_src)
+        p.write_text(new_src)
+
+
 def v_docstrings_and_blank_lines(root: Path) -> None:
     """S5: extra blank lines and comments between statements of every function"""
     for p in py_files(root):
@@ -146,7 +197,7 @@ def v_docstrings_and_blank_lines(root: Path) -> None:
 VARIANTS = {
     "unparse": v_unparse, "template-comments": v_template_comments, "ruff-format-88": v_ruff_format,
     "reorder-methods": v_reorder_methods, "rename-locals": v_rename_locals, "rename-all-locals": v_rename_all_locals,
-    "comments": v_docstrings_and_blank_lines,
+    "comments": v_docstrings_and_blank_lines, "rename-template-locals": v_rename_template_locals,
 }
 
 
